@@ -3,9 +3,11 @@ package c07
 import (
 	"fmt"
 	"reflect"
+	"strings"
 	"testing"
 
 	"github.com/go-kid/ioc/app"
+	"github.com/go-kid/ioc/configure/loader"
 	"pgregory.net/rapid"
 	"verif/harness/graph"
 	"verif/harness/kit"
@@ -47,7 +49,35 @@ func genNamedField(t *rapid.T, provs []pop.ProvSpec) pop.FieldSpec {
 	if rapid.Bool().Draw(t, "optional") {
 		opt = ",required=false"
 	}
+	// now and then the name is not written literally but comes out of a placeholder
+	if !strings.ContainsAny(name, " /") && name == strings.ToLower(name) && rapid.IntRange(0, 3).Draw(t, "viaplaceholder") == 0 {
+		if rapid.Bool().Draw(t, "viadefault") {
+			name = "${c07.absent:" + name + "}"
+		} else {
+			name = "${c07.name." + name + "}"
+		}
+	}
 	return pop.FieldSpec{Type: typ, Tag: fmt.Sprintf(`wire:"%s%s"`, name, opt)}
+}
+
+// c07.name.<x> is configured as <x> for every pool name; resolveName is the reference substitution.
+var nameCfg = func() []byte {
+	var sb strings.Builder
+	sb.WriteString("c07:\n  name:\n")
+	for _, n := range append(append([]string{}, names...), "nosuch", "n") {
+		sb.WriteString("    " + n + ": " + n + "\n")
+	}
+	return []byte(sb.String())
+}()
+
+func resolveName(s string) string {
+	if strings.HasPrefix(s, "${c07.absent:") && strings.HasSuffix(s, "}") {
+		return s[len("${c07.absent:") : len(s)-1]
+	}
+	if strings.HasPrefix(s, "${c07.name.") && strings.HasSuffix(s, "}") {
+		return s[len("${c07.name.") : len(s)-1]
+	}
+	return s
 }
 
 // sentinel returns an unregistered object assignable to t.
@@ -66,6 +96,7 @@ func sentinel(t reflect.Type) reflect.Value {
 
 func TestByName(t *testing.T) {
 	kit.Rec.Rule(rule)
+	model.ResolveTagValue = resolveName
 	rapid.Check(t, func(t *rapid.T) {
 		s := &pop.Scenario{}
 		s.Provs = pop.GenProviders(t, pop.ProvOpts{Kinds: kinds, Min: 1, Max: 7, Quals: []string{"g1"}, Comps: []string{"a"}, Names: names})
@@ -100,7 +131,7 @@ func TestByName(t *testing.T) {
 				sent[obj.Pointer()][i+1] = sv.Interface()
 			}
 		}
-		in.Run()
+		in.Run(app.SetConfigLoader(loader.NewRawLoader(nameCfg)))
 		desc := s.Shape()
 		if in.Out.Panic != nil {
 			t.Fatalf("C07: start-up panicked: %v\nscenario: %s", in.Out.Panic, desc)
@@ -268,3 +299,38 @@ func dedup(xs []string) []string {
 }
 
 var _ = graph.CheckWiring
+
+
+// TestNamedCreationFails: the named component exists and fits, but its creation fails (Init error):
+// start-up must fail - for an optional point too (the component is there, it just cannot be built).
+func TestNamedCreationFails(t *testing.T) {
+	kit.Rec.Rule(rule)
+	model.ResolveTagValue = resolveName
+	rapid.Check(t, func(t *rapid.T) {
+		hi := rapid.IntRange(0, 5).Draw(t, "holder")
+		ti := (hi + rapid.IntRange(1, 5).Draw(t, "target")) % 6
+		mode := rapid.SampledFrom([]int{zoo.FailAlways, zoo.FailOnce}).Draw(t, "mode")
+		s := &graph.Scenario{Nodes: []graph.NodeSpec{
+			{Idx: hi, Variant: 'N'}, // holder: BN INode `wire:"t<hi>,required=false"`
+			{Idx: ti, Variant: rapid.SampledFrom([]byte{'L', 'N'}).Draw(t, "tvariant"), Alias: fmt.Sprintf("t%d", hi), FailInit: mode},
+		}}
+		graph.DrawOrders(t, s)
+		in := s.Instantiate()
+		in.Run()
+		desc := "named-creation-fails " + s.Shape()
+		if in.Out.Panic != nil {
+			t.Fatalf("C07: panic %v\n%s", in.Out.Panic, desc)
+		}
+		holder := reflect.ValueOf(in.Comps[0]).Elem().FieldByName("BN")
+		if in.Out.Err == nil {
+			// only acceptable when the target was (re)built successfully and the holder got it
+			if holder.IsNil() || holder.Interface() != in.Comps[1] {
+				t.Fatalf("C07: the component named %q is registered and assignable, its creation failed, yet start-up succeeded with the optional by-name point left empty\n%s", s.Nodes[1].Alias, desc)
+			}
+			if in.Behs[1].InitCalls < 2 {
+				t.Fatalf("C07: start-up succeeded although the named component never initialised successfully\n%s", desc)
+			}
+		}
+		kit.Rec.Case(desc, true, "named-target-creation-fails")
+	})
+}
